@@ -1,5 +1,5 @@
 (* Entry point of the extracted executable for the container-size model (C02). *)
-From CV Require Import Base.Bytes Cont.Gen_StdCfg Cont.Defs.
+From CV Require Import Base.Bytes Cont.Gen_StdCfg Cont.Defs Cont.Overloads.
 Local Open Scope Z_scope.
 
 Definition zd (s : str) : Z := match Z_of_dec s with Some z => z | None => 0 end.
@@ -40,8 +40,35 @@ Definition eff_fields (e : eff) : list str :=
 Definition case_fields (rc : rcase) : list str :=
   [rc_cont rc; rc_meth rc; dec_of_N (kind_idx (rc_kind rc)); dec_of_N (rc_nargs rc); str_of_bool (rc_var rc)].
 
+(* overloads: lead tag n | i pos | l pos len | t | p dist ; src tag n | c | k | e | s | q | S | P | L | r | I with up to three numbers *)
+Definition lead_of (t : str) (a b : Z) : lead :=
+  match t with
+  | [105%N] => LIdx a | [108%N] => LIdxLen a b | [116%N] => LIter | [112%N] => LIterPair a | _ => LNone
+  end.
+Definition src_of (t : str) (a b c : Z) : src :=
+  match t with
+  | [99%N] => SCount a | [107%N] => SCountCh a | [101%N] => SElem | [115%N] => SPtr a | [113%N] => SPtrCount a
+  | [83%N] => SStr a | [80%N] => SStrPos a b | [76%N] => SStrPosLen a b c | [114%N] => SRange a | [73%N] => SInit a
+  | _ => SNone
+  end.
+Definition lshape_idx (l : lshape) : N := match l with HNone => 0 | HIdx => 1 | HIdxLen => 2 | HIter => 3 | HIterPair => 4 end%N.
+Definition sshape_idx (s : sshape) : N :=
+  match s with ZNone => 0 | ZCount => 1 | ZCountCh => 2 | ZElem => 3 | ZPtr => 4 | ZPtrCount => 5 | ZStr => 6 | ZStrPos => 7
+  | ZStrPosLen => 8 | ZRange => 9 | ZInit => 10 end%N.
+Definition ocase_fields (oc : ocase) : list str :=
+  [oc_cont oc; oc_meth oc; dec_of_N (kind_idx (oc_kind oc)); dec_of_N (lshape_idx (oc_l oc)); dec_of_N (sshape_idx (oc_s oc)); str_of_bool (oc_var oc)].
+
 Definition run (fields : list str) : list str :=
   match fields with
+  | [101%N; 102%N; 102%N; 111%N; 118%N] :: k :: m :: lt :: l1 :: l2 :: st :: s1 :: s2 :: s3 :: _ =>   (* effov *)
+      match ckind_of_idx (nd k) with
+      | Some k => let o := mkOv (lead_of lt (zd l1) (zd l2)) (src_of st (zd s1) (zd s2) (zd s3)) in
+                  eff_fields (std_eff_ov k m o) ++ [dec_of_N (arity o); str_of_bool (ov_wf o)]
+      | None => [tag_E] end
+  | [117%N; 110%N; 115%N; 111%N; 117%N; 110%N; 100%N; 111%N; 118%N] :: _ =>                          (* unsoundov *)
+      match load std_raw with Some t => flat_map ocase_fields (unsound_ov_cases t) | None => [tag_E] end
+  | [111%N; 118%N; 99%N; 97%N; 115%N; 101%N; 115%N] :: _ =>                                          (* ovcases *)
+      match load std_raw with Some t => flat_map ocase_fields (existing_ov_cases t) | None => [tag_E] end
   | [99%N; 111%N; 110%N; 116%N; 115%N] :: _ =>                       (* conts *)
       match load std_raw with Some t => map fst t | None => [tag_E] end
   | [102%N; 117%N; 110%N; 99%N; 115%N] :: id :: _ =>                 (* funcs id *)
